@@ -28,6 +28,7 @@ pub fn run(args: &Args, out: Out) {
         "exchange-gen" => exchange::run_gen(args, out),
         "recv-body" => exchange::run_recv_body(args, out),
         "limits" => exchange::run_limits(args, out),
+        "permit-race" => server::run_permit_race(args, out),
         "tokens-enum" => server::run_tokens(args, out),
         "server-stress" => server::run_stress(args, out),
         "sse-replay" => sse::run_replay(args, out),
